@@ -166,11 +166,14 @@ func (ri *RInterp) rootI() *RInterp {
 
 // Mask returns the kind set of an entity.
 func (ri *RInterp) Mask(ent string, s S) uint32 {
-	if v := s.Get("K:" + ent); v != "" {
+	if v := s.Get("K:" + ent); v != "" && !strings.HasPrefix(ent, "kc:") {
 		n, _ := strconv.ParseUint(v, 10, 32)
 		return uint32(n)
 	}
 	switch {
+	case strings.HasPrefix(ent, "kc:"):
+		n, _ := strconv.Atoi(ent[3:])
+		return 1 << uint(n)
 	case strings.HasPrefix(ent, "unk@"), strings.HasPrefix(ent, "u:"):
 		return RAllKinds
 	case strings.HasPrefix(ent, "z:"), strings.HasPrefix(ent, "zv@"):
@@ -376,6 +379,12 @@ func (ri *RInterp) entOf(e ast.Expr, s S, ents map[ast.Expr]string) string {
 		return x
 	}
 	info := ri.info()
+	// a constant kind (k = reflect.Struct) is an entity of exactly that kind
+	if RType(info.TypeOf(e)) == "Kind" {
+		if c, ok := ConstInt(info, e); ok && c >= 0 && c <= 26 {
+			return "kc:" + strconv.FormatInt(c, 10)
+		}
+	}
 	switch x := e.(type) {
 	case *ast.Ident:
 		if v, ok := ObjOf(info, x).(*types.Var); ok && RType(v.Type()) != "" {
